@@ -191,6 +191,9 @@ def patGuarantee : Bool → Bool → Bool → List Ev → Bool
 
 def handleC10 : Handler := fun comp a impl =>
   match comp, a with
+  | "hls.republish", [_mode] =>
+    -- `cleanup_spares_live`: the cleanup task performs no operation while a muxer for the name exists
+    some { model := "kept", verdict := if impl == "kept" then "ok" else "bad:cleanup-removed-the-directory-of-a-live-publish" }
   | "hls.run", [fd, fn, dt, cm, evs] =>
     match (evs.splitOn ";").mapM parseEv with
     | none => some { model := "bad-op" }
